@@ -80,7 +80,7 @@ func (r *runner) waitDrained(gen int) {
 }
 
 func newRunner(e *env, sc scenario) *runner {
-	r := &runner{env: e, sc: sc, opened: map[int]int{}, closed: map[int]int{}, firstP: map[int]bool{}, tokens: map[string]*token{}, curGen: -1}
+	r := &runner{env: e, sc: sc, opened: map[int]int{}, closed: map[int]int{}, firstP: map[int]bool{}, injected: map[int]bool{}, tokens: map[string]*token{}, curGen: -1}
 	for i, ts := range sc.toks {
 		id := fmt.Sprintf("k%d", i)
 		r.tokens[id] = &token{id: id, spec: ts, accepted: make(chan int, 1), release: make(chan struct{}), done: make(chan [2]string, 1), acceptor: -1}
@@ -160,11 +160,11 @@ func (r *runner) execute() {
 		err := caddy.Load(js, true)
 		res := "ok"
 		switch {
-		case err != nil && c.fail:
+		case err != nil && c.fail && r.injected[k]:
 			res = "err"
 		case err != nil:
-			// A config that should have been accepted was rejected. The rest of the
-			// scenario is not run: what is left behind (see DESIGN F2: listeners the HTTP
+			// A config was rejected for a reason the scenario did not ask for. The rest of
+			// the scenario is not run: what is left behind (see DESIGN F2: listeners the HTTP
 			// app bound before its Start failed are never closed) is cleaned up below.
 			res = "err"
 			if strings.Contains(err.Error(), "use of closed network connection") {
@@ -173,7 +173,7 @@ func (r *runner) execute() {
 			} else {
 				r.fail("valid-config-rejected", fmt.Sprintf("load %d: %v", k, err))
 			}
-			r.mark('Z', k)
+			r.markStartFailed(k)
 			r.poisoned = true
 		case c.fail:
 			r.fail("harness-fault-not-injected", fmt.Sprintf("load %d was expected to be rejected", k))
@@ -251,14 +251,47 @@ func (r *runner) execute() {
 	r.evMu.Unlock()
 }
 
-// releaseAll lets every request that is still parked go (bad plan or aborted scenario).
+// markStartFailed records (after the fact: the error only surfaces when Load returns) where
+// the HTTP app's Start failed: before the first Stop/Cleanup callback of the rejected config.
+func (r *runner) markStartFailed(k int) {
+	r.evMu.Lock()
+	defer r.evMu.Unlock()
+	at := len(r.events)
+	for i, ev := range r.events {
+		if ev.load == k && ev.gen == k && (ev.kind == 'T' || ev.kind == 'C') {
+			at = i
+			break
+		}
+	}
+	z := &event{kind: 'Z', gen: k, load: k}
+	r.events = append(r.events, nil)
+	copy(r.events[at+1:], r.events[at:])
+	r.events[at] = z
+}
+
+// releaseAll lets every request that is still parked go (aborted scenario) and collects
+// the answers.
 func (r *runner) releaseAll() {
 	r.tokMu.Lock()
+	var ts []*token
 	for _, t := range r.tokens {
 		if t.started && !t.released {
 			t.released = true
 			close(t.release)
+			ts = append(ts, t)
 		}
 	}
 	r.tokMu.Unlock()
+	for _, t := range ts {
+		select {
+		case d := <-t.done:
+			t.result = d[0]
+			if d[0] != genChar(t.acceptor) {
+				r.fail("inflight-lost", fmt.Sprintf("request %s accepted by config %d: client got %q %s", t.id, t.acceptor, d[0], d[1]))
+			}
+		case <-time.After(4 * time.Second):
+			t.result = ansTimeout
+			r.fail("inflight-lost", fmt.Sprintf("request %s accepted by config %d: no response within 4s", t.id, t.acceptor))
+		}
+	}
 }
